@@ -105,6 +105,24 @@ def handleIntMat : Handler
           | none => "panic"
           | some d => s!"{showList adds} {showList e.indices} {showMat basis} {showList fac} {d}"
         | _, _ => "panic")
+  -- the plain-arithmetic reference builder (follow-up of im_echelon / im_detp)
+  | ["im_echelon_plain", p, m] => do
+    let p ← parseNat p; let m ← parseMat64 m
+    if p ≥ 2 ^ 64 then none
+    else some (match EchP.addAll inv64 { p := p, indices := [], basis := [], factors := [] } m [] with
+      | none => "panic"
+      | some (e, adds) =>
+        let det : Option String :=
+          match e.basis with
+          | b0 :: _ => if e.factors.length = b0.length then e.det.map toString else some "-"
+          | [] => some "-"
+        match det with
+        | none => "panic"
+        | some d => s!"{showList (adds.map (fun b => if b then 1 else 0))} {showList e.indices} {showMat e.basis} {showList e.factors} {d}")
+  | ["im_detp_plain", p, m] => do
+    let p ← parseNat p; let m ← parseMat64 m
+    if p ≥ 2 ^ 64 then none
+    else some (pn (detModPlain inv64 p { p := p, indices := [], basis := [], factors := [] } m))
   | ["im_detp", p, m] => do
     let p ← parseNat p; let m ← parseMat64 m
     if p ≥ 2 ^ 64 then none else some (pn (detModP inv64 p m))
